@@ -81,6 +81,8 @@ def env():
 ARCH_INFO = {
     "x86_32": {"attrib": 32, "jitarch": "x86", "pcregs": ("RIP",)},
     "x86_64": {"attrib": 64, "jitarch": "x86", "pcregs": ("RIP",)},
+    "arml": {"attrib": "l", "jitarch": "arm", "pcregs": ("PC",)},
+    "mips32l": {"attrib": "l", "jitarch": "mips32", "pcregs": ("PC", "PC_FETCH")},
 }
 
 
@@ -94,6 +96,10 @@ LABEL_RE = re.compile(r"^(L\d+|cell\d+|sub\d+|end|main)$")
 ASM_CACHE_FILE = os.path.join(os.path.dirname(os.path.abspath(__file__)), "asmcache_x86_32.json")
 
 
+def asm_cache_file(arch):
+    return os.path.join(os.path.dirname(os.path.abspath(__file__)), "asmcache_%s.json" % arch)
+
+
 class StatementAssembler(object):
     """statement text -> bytes, through miasm's assembler, cached (the assembler
     is a workload generator here, not the code under test)."""
@@ -104,7 +110,7 @@ class StatementAssembler(object):
         self.cache = {}
         self.new = {}
         try:
-            with open(ASM_CACHE_FILE) as fd:
+            with open(asm_cache_file(arch)) as fd:
                 self.cache = {k: bytes.fromhex(v) for k, v in json.load(fd).items()}
         except (IOError, ValueError):
             pass
@@ -137,7 +143,96 @@ def statement_assembler(arch):
     return _ASM[arch]
 
 
-class Program(object):
+def Program(arch, lines):
+    if arch.startswith("x86"):
+        return ProgramX86(arch, lines)
+    return ProgramFixed4(arch, lines)
+
+
+ARM_COND = {"EQ": 0, "NE": 1, "CS": 2, "CC": 3, "MI": 4, "PL": 5, "VS": 6, "VC": 7, "HI": 8, "LS": 9,
+            "GE": 10, "LT": 11, "GT": 12, "LE": 13, "": 14}
+MIPS_REG = {n: i for i, n in enumerate(["ZERO", "AT", "V0", "V1", "A0", "A1", "A2", "A3", "T0", "T1", "T2", "T3", "T4", "T5",
+                                        "T6", "T7", "S0", "S1", "S2", "S3", "S4", "S5", "S6", "S7", "T8", "T9", "K0", "K1",
+                                        "GP", "SP", "FP", "RA"])}
+
+
+class ProgramFixed4(object):
+    """Programs for fixed-width (4-byte) little-endian architectures: arml, mips32l.  Plain statements go
+    through miasm's assembler (cached); branches to labels are encoded here."""
+
+    def __init__(self, arch, lines):
+        self.arch = arch
+        self.lines = lines
+        sa = statement_assembler(arch)
+        items = []
+        for line in lines:
+            line = line.strip()
+            if not line:
+                continue
+            if line.endswith(":"):
+                items.append(("label", line[:-1], line))
+                continue
+            op, _, rest = line.partition(" ")
+            target = rest.split(",")[-1].strip()
+            if LABEL_RE.match(target) and (op.startswith("B") or op in ("J", "JAL")):
+                items.append(("branch", (op, [x.strip() for x in rest.split(",")[:-1]], target), line))
+            else:
+                b = sa.asm(line)
+                if len(b) != 4:
+                    raise Discard("not a 4-byte instruction: %r" % line)
+                items.append(("raw", b, line))
+        labels = {}
+        off = CODE
+        for kind, payload, _ in items:
+            if kind == "label":
+                if payload in labels:
+                    raise Discard("duplicate label")
+                labels[payload] = off
+            else:
+                off += 4
+        buf = bytearray()
+        self.instrs = []
+        self.text_at = {}
+        off = CODE
+        for kind, payload, text in items:
+            if kind == "label":
+                continue
+            self.instrs.append((off, 4))
+            self.text_at[off] = text
+            if kind == "raw":
+                buf += payload
+            else:
+                op, regs, target = payload
+                if target not in labels:
+                    raise Discard("unknown label %s" % target)
+                dst = labels[target]
+                if arch == "arml":
+                    link = 1 if op.startswith("BL") and op[2:] in ARM_COND else 0
+                    cond = op[2:] if link else op[1:]
+                    if cond not in ARM_COND:
+                        raise Discard("bad branch %r" % text)
+                    word = (ARM_COND[cond] << 28) | (0b101 << 25) | (link << 24) | (((dst - (off + 8)) >> 2) & 0xFFFFFF)
+                else:
+                    if op in ("J", "JAL"):
+                        word = ((2 if op == "J" else 3) << 26) | ((dst >> 2) & 0x3FFFFFF)
+                    elif op in ("BEQ", "BNE") and len(regs) == 2:
+                        word = ((4 if op == "BEQ" else 5) << 26) | (MIPS_REG[regs[0]] << 21) | (MIPS_REG[regs[1]] << 16) | \
+                            (((dst - (off + 4)) >> 2) & 0xFFFF)
+                    else:
+                        raise Discard("bad branch %r" % text)
+                buf += word.to_bytes(4, "little")
+            off += 4
+        if "main" not in labels or "end" not in labels:
+            raise Discard("no main/end")
+        if len(buf) > 0xF00:
+            raise Discard("program too large")
+        self.code = bytes(buf)
+        self.labels = labels
+        self.entry = labels["main"]
+        self.end = labels["end"]
+
+
+class ProgramX86(object):
     """A program = list of statements.  Plain statements are assembled one by
     one (cached); labels, branches, calls and label immediates are laid out and
     encoded here (fixed-size rel32 forms), so a program costs microseconds."""
@@ -392,6 +487,201 @@ def gen_program_x86(rng, feat, bits=32):
     lines.append("end:")
     lines.append("NOP")
     return lines
+
+
+def gen_program_arm(rng, feat):
+    """Terminating ARM (little endian) program.  R10 = data page 0, R11 = data page 1, R9 = straddling base,
+    R8 = read-only page (set through the initial registers); R4/R5 are loop counters."""
+    R = ["R0", "R1", "R2", "R3"]
+    lines = ["main:"]
+    n_label = [0]
+    subs = []
+
+    def lab():
+        n_label[0] += 1
+        return "L%d" % n_label[0]
+
+    def alu():
+        a, b, c = rng.choice(R), rng.choice(R), rng.choice(R)
+        op = rng.choice(["ADD", "SUB", "EOR", "ORR", "AND", "RSB", "ADC", "SBC", "BIC", "MOV", "MVN", "MUL", "CMP", "TST",
+                         "ADDS", "SUBS", "MOVS", "ADDEQ", "MOVNE", "SUBGT", "ADDCS"])
+        imm = rng.choice([0, 1, 7, 0xFF])
+        if op in ("MOV", "MVN", "MOVS", "MOVNE"):
+            return "%s %s, %s" % (op, a, rng.choice([b, "0x%x" % imm]))
+        if op in ("CMP", "TST"):
+            return "%s %s, %s" % (op, a, rng.choice([b, "0x%x" % imm]))
+        if op == "MUL":
+            return "MUL %s, %s, %s" % (a, b, c) if a != b else "MUL %s, %s, %s" % (a, c if c != a else "R1" if a != "R1" else "R2", b)
+        if rng.random() < 0.3:
+            return "%s %s, %s, %s %s 0x%x" % (op, a, b, c, rng.choice(["LSL", "LSR"]), rng.choice([1, 8]))
+        return "%s %s, %s, %s" % (op, a, b, rng.choice([c, "0x%x" % imm]))
+
+    def mem():
+        a = rng.choice(R)
+        base, off = rng.choice([("R10", rng.choice([0, 4, 8, 0x10, 0x21, 0x40])), ("R11", rng.choice([0, 4, 0x10, 0x7c])),
+                                ("R9", rng.choice([0, 1, 2])) if "straddle" in feat else ("R10", 4),
+                                ("R8", rng.choice([0, 4])) if "ro" in feat else ("R10", 8)])
+        kind = rng.choice(["LDR", "STR", "LDRB", "STRB", "LDRH", "STRH"])
+        if base == "R8" and kind.startswith("STR"):
+            kind = "LDR" + kind[3:]
+        if "multi" in feat and rng.random() < 0.2:
+            return "%s %s, {R0, R1, R2}" % (rng.choice(["STMIA", "LDMIA"]), rng.choice(["R10", "R11", "R9"] if "straddle" in feat else ["R10", "R11"]))
+        return "%s %s, [%s, 0x%x]" % (kind, a, base, off)
+
+    def body(n, depth):
+        out = []
+        for _ in range(n):
+            r = rng.random()
+            if r < 0.4 or not feat:
+                out.append(alu())
+            elif r < 0.62 and "mem" in feat:
+                out.append(mem())
+            elif r < 0.70 and "stack" in feat:
+                out.append("STMDB SP!, {%s, %s}" % tuple(sorted(rng.sample(R, 2), key=lambda x: int(x[1:]))))
+                out.extend(body(rng.randint(0, 2), depth + 1) if depth < 2 else [])
+                out.append("LDMIA SP!, {%s, %s}" % tuple(sorted(rng.sample(R, 2), key=lambda x: int(x[1:]))))
+            elif r < 0.76 and "call" in feat and depth < 2:
+                name = "sub%d" % len(subs)
+                subs.append(name)
+                out.append("BL %s" % name)
+            elif r < 0.88 and "branch" in feat:
+                l = lab()
+                out.append("CMP %s, 0x%x" % (rng.choice(R), rng.choice([0, 1, 2, 7])))
+                out.append("B%s %s" % (rng.choice(["EQ", "NE", "CS", "CC", "MI", "PL", "HI", "LS", "GE", "LT", "GT", "LE"]), l))
+                out.extend(body(rng.randint(1, 3), depth + 1) if depth < 3 else [alu()])
+                out.append("%s:" % l)
+            elif r < 0.96 and "loop" in feat and depth < 2:
+                cnt = "R4" if depth == 0 else "R5"
+                l = lab()
+                out.append("MOV %s, 0x%x" % (cnt, rng.randint(1, 4)))
+                out.append("%s:" % l)
+                out.extend(body(rng.randint(1, 4), depth + 1))
+                out.append("SUBS %s, %s, 0x1" % (cnt, cnt))
+                out.append("BNE %s" % l)
+            else:
+                out.append(alu())
+        return out
+
+    lines.extend(body(rng.randint(3, 14), 0))
+    lines.append("B end")
+    for name in subs:
+        lines.append("%s:" % name)
+        lines.extend(alu() for _ in range(rng.randint(1, 3)))
+        lines.append("BX LR")
+    lines.append("end:")
+    lines.append("MOV R0, R0")
+    return lines
+
+
+def gen_program_mips(rng, feat):
+    """Terminating MIPS32 (little endian) program.  S0 = data page 0, S1 = data page 1, S2 = straddling base,
+    S3 = read-only page; S4/S5 loop counters.  Every branch is followed by its delay slot."""
+    R = ["T0", "T1", "T2", "T3", "V0", "A0", "A1"]
+    lines = ["main:"]
+    n_label = [0]
+    subs = []
+
+    def lab():
+        n_label[0] += 1
+        return "L%d" % n_label[0]
+
+    def alu():
+        a, b, c = rng.choice(R), rng.choice(R), rng.choice(R)
+        op = rng.choice(["ADDU", "SUBU", "XOR", "OR", "AND", "SLT", "SLTU", "ADDIU", "ANDI", "ORI", "XORI", "SLL", "SRL", "SRA",
+                         "LUI", "SLTIU", "NOR"])
+        if op in ("ADDIU", "ANDI", "ORI", "XORI", "SLTIU"):
+            return "%s %s, %s, 0x%x" % (op, a, b, rng.choice([0, 1, 2, 7, 0x10, 0xFF, 0x7FFF]))
+        if op in ("SLL", "SRL", "SRA"):
+            return "%s %s, %s, 0x%x" % (op, a, b, rng.choice([1, 3, 8, 16, 31]))
+        if op == "LUI":
+            return "LUI %s, 0x%x" % (a, rng.choice([1, 0x1234, 0x8000]))
+        return "%s %s, %s, %s" % (op, a, b, c)
+
+    def slot():
+        # delay slot: a harmless ALU instruction or a NOP
+        return rng.choice(["NOP", alu()])
+
+    def mem():
+        a = rng.choice(R)
+        base, off = rng.choice([("S0", rng.choice([0, 4, 8, 0x10, 0x21, 0x40])), ("S1", rng.choice([0, 4, 0x10, 0x7c])),
+                                ("S2", rng.choice([0, 1, 2])) if "straddle" in feat else ("S0", 4),
+                                ("S3", rng.choice([0, 4])) if "ro" in feat else ("S0", 8)])
+        kind = rng.choice(["LW", "SW", "LB", "SB", "LH", "SH", "LBU", "LHU"])
+        if base == "S3" and kind.startswith("S"):
+            kind = "LW"
+        return "%s %s, 0x%x(%s)" % (kind, a, off, base)
+
+    def body(n, depth):
+        out = []
+        for _ in range(n):
+            r = rng.random()
+            if r < 0.4 or not feat:
+                out.append(alu())
+            elif r < 0.62 and "mem" in feat:
+                out.append(mem())
+            elif r < 0.70 and "stack" in feat:
+                out.append("ADDIU SP, SP, 0xFFFC")
+                out.append("SW %s, 0x0(SP)" % rng.choice(R))
+                out.extend(body(rng.randint(0, 2), depth + 1) if depth < 2 else [])
+                out.append("LW %s, 0x0(SP)" % rng.choice(R))
+                out.append("ADDIU SP, SP, 0x4")
+            elif r < 0.76 and "call" in feat and depth < 1:
+                name = "sub%d" % len(subs)
+                subs.append(name)
+                out.append("JAL %s" % name)
+                out.append(slot())
+            elif r < 0.88 and "branch" in feat:
+                l = lab()
+                out.append("%s %s, %s, %s" % (rng.choice(["BEQ", "BNE"]), rng.choice(R), rng.choice(R + ["ZERO"]), l))
+                out.append(slot() if "mem" not in feat or rng.random() < 0.7 else mem())
+                out.extend(body(rng.randint(1, 3), depth + 1) if depth < 3 else [alu()])
+                out.append("%s:" % l)
+            elif r < 0.96 and "loop" in feat and depth < 2:
+                cnt = "S4" if depth == 0 else "S5"
+                l = lab()
+                out.append("ADDIU %s, ZERO, 0x%x" % (cnt, rng.randint(1, 4)))
+                out.append("%s:" % l)
+                out.extend(body(rng.randint(1, 4), depth + 1))
+                out.append("ADDIU %s, %s, 0xFFFF" % (cnt, cnt))
+                out.append("BNE %s, ZERO, %s" % (cnt, l))
+                out.append(slot())
+            else:
+                out.append(alu())
+        return out
+
+    lines.extend(body(rng.randint(3, 14), 0))
+    lines.append("J end")
+    lines.append("NOP")
+    for name in subs:
+        lines.append("%s:" % name)
+        lines.extend(alu() for _ in range(rng.randint(1, 3)))
+        lines.append("JR RA")
+        lines.append(slot())
+    lines.append("end:")
+    lines.append("NOP")
+    lines.append("NOP")
+    return lines
+
+
+def gen_program(arch, rng, feat):
+    if arch == "arml":
+        return gen_program_arm(rng, feat)
+    if arch == "mips32l":
+        return gen_program_mips(rng, feat)
+    return gen_program_x86(rng, feat)
+
+
+def default_regs(arch, rng):
+    """Initial registers: scratch registers random, base registers on the data pages."""
+    if arch == "arml":
+        regs = {r: rng.getrandbits(32) for r in ["R0", "R1", "R2", "R3"]}
+        regs.update({"R10": D0, "R11": D1, "R9": D1 - 2, "R8": RO, "R4": 0, "R5": 0})
+        return regs
+    if arch == "mips32l":
+        regs = {r: rng.getrandbits(32) for r in ["T0", "T1", "T2", "T3", "V0", "A0", "A1", "T4"]}
+        regs.update({"S0": D0, "S1": D1, "S2": D1 - 2, "S3": RO, "S4": 0, "S5": 0})
+        return regs
+    return {r: rng.getrandbits(32) for r in ["EAX", "EBX", "ECX", "EDX", "ESI", "EDI", "EBP"]}
 
 
 # ---------------------------------------------------------------------------
